@@ -255,7 +255,7 @@ where
             clones += 1;
             continue;
         }
-        let op = gen_op(rng, p, base.len, false);
+        let op = gen_op(rng, p, base.len, false, false);
         trace.push(J::S(format!("it{}.{}", k, op.render())));
         let m = &mut its[k];
         let _ = catch_unwind(AssertUnwindSafe(|| exec_op(&m.it, &op, &mut m.ctx)));
@@ -283,7 +283,7 @@ where
     C::Item: Elem,
 {
     let its = [mk(), mk()];
-    let scripts: Vec<Script> = (0..4).map(|_| gen_script(rng, p, base.len)).collect();
+    let scripts: Vec<Script> = (0..4).map(|_| gen_script(rng, p, base.len, false)).collect();
     crate::sched::RACE_MODE.store(false, Relaxed);
     crate::sched::CLOCK.store(1, std::sync::atomic::Ordering::SeqCst);
     let gate = std::sync::atomic::AtomicUsize::new(0);
@@ -351,7 +351,7 @@ pub fn cmd_multi(a: &Args) -> i32 {
         let salt = rng.next_u64();
         let steps = rng.range(4, 30);
         ledger_reset(len + 8, salt);
-        let mut info = SrcInfo { kind: "slice", len, base_addr: 0, stride: 0, range_start: 0, salt, consuming: false, adaptor: false, wrapped: false, exact_len: true, start_pos: 0 };
+        let mut info = SrcInfo { kind: "slice", len, base_addr: 0, stride: 0, range_start: 0, salt, consuming: false, adaptor: false, wrapped: false, exact_len: true, start_pos: 0, non_fused: false };
         let mut viol;
         let (n_its, clones, trace);
         let concurrent = e % 4 == 3;
